@@ -96,6 +96,15 @@ func fieldCases() []fieldCase {
 			Lines: []string{"autoMap A", "autoMap B"}, Fail: "autoMap ambiguity"},
 		{Name: "fail_settings_on_slice_method", Decls: in + "type PFXOut struct {\n\tTitle string\n\tAge int\n}\n", Src: "[]PFXIn", Tgt: "[]PFXOut",
 			Lines: []string{"map Name Title"}, Fail: "field settings on a method whose target is not the struct"},
+		{Name: "fail_overlap_automap", Decls: "type PFXAddr struct{ Zip string }\ntype PFXPerson struct {\n\tName string\n\tAddress PFXAddr\n}\ntype PFXFlat struct {\n\tName string\n\tZip string\n}\ntype PFXIn struct{ Lead PFXPerson }\ntype PFXOut struct{ Lead PFXFlat }\n", Src: "PFXIn", Tgt: "PFXOut",
+			Conv: []string{"ignoreMissing"}, Extra: "\t// goverter:autoMap Address\n\tPFXInner(source *PFXPerson) *PFXFlat\n",
+			Fail: "field settings (autoMap) on a method that another method bypasses"},
+		{Name: "fail_overlap_ignorecase", Decls: "type PFXPerson struct {\n\tName string\n\tZIP string\n}\ntype PFXFlat struct {\n\tName string\n\tZip string\n}\ntype PFXIn struct{ Lead PFXPerson }\ntype PFXOut struct{ Lead PFXFlat }\n", Src: "PFXIn", Tgt: "PFXOut",
+			Conv: []string{"ignoreMissing"}, Extra: "\t// goverter:matchIgnoreCase\n\tPFXInner(source *PFXPerson) *PFXFlat\n",
+			Fail: "field settings (matchIgnoreCase) on a method that another method bypasses"},
+		{Name: "fail_overlap_map", Decls: "type PFXPerson struct {\n\tName string\n\tCode string\n}\ntype PFXFlat struct {\n\tName string\n\tZip string\n}\ntype PFXIn struct{ Lead PFXPerson }\ntype PFXOut struct{ Lead PFXFlat }\n", Src: "PFXIn", Tgt: "PFXOut",
+			Conv: []string{"ignoreMissing"}, Extra: "\t// goverter:map Code Zip\n\tPFXInner(source *PFXPerson) *PFXFlat\n",
+			Fail: "field settings (map) on a method that another method bypasses"},
 		{Name: "fail_unexported_other_pkg", Decls: "type PFXIn struct {\n\tName string\n\thidden int\n}\ntype PFXOut struct {\n\tName string\n\thidden int\n}\n", Src: "PFXIn", Tgt: "PFXOut",
 			Fail: "unexported target field without ignoreUnexported", Formats: []string{"struct"}},
 	}
